@@ -31,6 +31,9 @@ def obligations(tier):
     for t in ['{"?":1}'] if q else ['{"?":1}', '{"?":1,"?":2}', '{"\\u004?":1}']:
         for via in B:
             L.append(ob("embedded2/%s/map=%d" % (t.replace('"', ''), via), ".", "VerifC02Embedded2", [t, via], covers=["success", "error"], max_seconds=600))
+    # composite / pointer / interface values and key functions in object-name position
+    for kind in range(7):
+        L.append(ob("mapkeys/kind=%d" % kind, ".", "VerifC02MapKeys", [kind], covers=(["success", "error"] if kind == 6 else [])))
     # time.Time: the location name (user-controlled text) reaches the output through layouts that print the zone abbreviation
     for layout in range(6):
         for n in ((1, 2) if q else (1, 2, 3)):
